@@ -224,11 +224,14 @@ EncodeA(i) == LET w == EncodeW(i) IN <<w[1] % 256, w[1] \div 256, w[2] % 256, w[
 
 -----------------------------------------------------------------------------
 (* Meaning of a printed line.  <<name, base mnemonic, S, condition>>         *)
+BlockTable == {<<x \o y, x, IF y = "" THEN "ia" ELSE y>> : x \in {"ldm", "stm"}, y \in {"", "ia", "ib", "da", "db"}}
+BlockNames == {bt[1] : bt \in BlockTable}
+BlockModeOf(nm) == LET bt == CHOOSE x \in BlockTable : x[1] = nm IN <<bt[2], bt[3]>>
 DpBases == {DpMnA[k] : k \in 1..16} \cup {"lsl", "lsr", "asr", "ror"}
 SBases == DpBases \cup {"mul", "mla"}
 Bases == SBases \cup {"mls", "sdiv", "udiv", "ldr", "str", "ldrb", "strb", "ldrh", "strh", "ldrsb", "ldrsh", "b", "bl", "bx",
                       "blx", "push", "pop", "adr", "mcr", "mrc", "svc", "bkpt", "udf", "clz", "movw", "movt", "nop", "yield",
-                      "wfe", "wfi", "sev"}
+                      "wfe", "wfi", "sev"} \cup BlockNames
 MnTable == {<<b \o cs[1], b, FALSE, cs[2]>> : b \in Bases, cs \in CondSuffixes}
            \cup {<<b \o "s" \o cs[1], b, TRUE, cs[2]>> : b \in SBases, cs \in CondSuffixes}
 MnNames == {t[1] : t \in MnTable}
@@ -246,6 +249,13 @@ AsmA(mn0, ops0, sym, pc) ==
         p == Pat(ops)  n == Len(ops)
         R1 == Num(ops, 1)  R2 == Num(ops, 2)  R3 == Num(ops, 3)
         disp == sym - (pc + 8)
+        Addr == n >= 4 /\ ops[1][1] = "r" /\ ops[2][1] = "[" /\ ops[3][1] = "r"
+                /\ Cardinality({k \in 1..n : ops[k][1] = "["}) = 1 /\ Cardinality({k \in 1..n : ops[k][1] = "]"}) = 1
+                /\ Cardinality({k \in 1..n : ops[k][1] = "!"}) = (IF ops[n][1] = "!" THEN 1 ELSE 0)
+                /\ (ops[n][1] = "!" => ops[n - 1][1] = "]") /\ (ops[n][1] \in {"!", "]"} \/ ops[4][1] = "]")
+        flat == SelectSeq(ops, LAMBDA o : o[1] \notin {"[", "]", "!"})
+        fp == Pat(flat)
+        am == IF ops[n][1] = "!" THEN "pre" ELSE IF ops[n][1] = "]" THEN "off" ELSE "post"
         Dp(i) == [i EXCEPT !.mn = mn, !.cond = c, !.len = 4] IN
     CASE mn \in DpBases \ (Compares \cup {"mov", "mvn", "lsl", "lsr", "asr", "ror"}) ->
             (CASE p = "rri" /\ mn \in {"add", "sub"} /\ ~sf /\ R2 = PC ->          \* ADD / SUB Rd, PC, #const is ADR
@@ -286,16 +296,31 @@ AsmA(mn0, ops0, sym, pc) ==
       [] mn = "mul" /\ p = "rrr" -> Dp([I0 EXCEPT !.enc = "mul", !.s = sf, !.rd = R1, !.rn = R2, !.rm = R3])
       [] mn \in {"mla", "mls"} /\ p = "rrrr" -> Dp([I0 EXCEPT !.enc = "mul", !.s = sf, !.rd = R1, !.rn = R2, !.rm = R3, !.ra = Num(ops, 4)])
       [] mn \in {"sdiv", "udiv"} /\ p = "rrr" -> Dp([I0 EXCEPT !.enc = "div", !.rd = R1, !.rn = R2, !.rm = R3])
-      [] mn \in {"ldr", "str", "ldrb", "strb"} /\ p \in {"r[ri]", "r[ri]!", "r[r]i"} ->
-            Dp([I0 EXCEPT !.enc = "ldst_imm", !.rd = R1, !.rn = Num(ops, 3), !.imm = Num(ops, IF p = "r[r]i" THEN 5 ELSE 4),
-                          !.am = IF p = "r[ri]" THEN "off" ELSE IF p = "r[ri]!" THEN "pre" ELSE "post"])
-      [] mn \in {"ldr", "str", "ldrb", "strb"} /\ p = "r[rr]" ->
-            Dp([I0 EXCEPT !.enc = "ldst_reg", !.rd = R1, !.rn = Num(ops, 3), !.rm = Num(ops, 4), !.am = "off"])
-      [] mn \in {"ldrh", "strh", "ldrsb", "ldrsh"} /\ p \in {"r[ri]", "r[ri]!", "r[r]i"} ->
-            Dp([I0 EXCEPT !.enc = "extra_imm", !.rd = R1, !.rn = Num(ops, 3), !.imm = Num(ops, IF p = "r[r]i" THEN 5 ELSE 4),
-                          !.am = IF p = "r[ri]" THEN "off" ELSE IF p = "r[ri]!" THEN "pre" ELSE "post"])
-      [] mn \in {"ldrh", "strh", "ldrsb", "ldrsh"} /\ p = "r[rr]" ->
-            Dp([I0 EXCEPT !.enc = "extra_reg", !.rd = R1, !.rn = Num(ops, 3), !.rm = Num(ops, 4), !.am = "off"])
+      \* addressing modes: [Rn, off] offset, [Rn, off]! pre-indexed, [Rn], off post-indexed;
+      \* off = #imm | +/-Rm | +/-Rm, shift #n | +/-Rm, rrx   (fp = the operands without the brackets)
+      [] mn \in {"ldr", "str", "ldrb", "strb"} /\ Addr /\ fp \in {"rri", "rr-i"} ->
+            Dp([I0 EXCEPT !.enc = "ldst_imm", !.rd = R1, !.rn = Num(flat, 2), !.am = am,
+                          !.imm = IF fp = "rri" THEN Num(flat, 3) ELSE -Num(flat, 4), !.sub = (fp = "rr-i" /\ Num(flat, 4) = 0)])
+      [] mn \in {"ldr", "str", "ldrb", "strb"} /\ Addr /\ fp \in {"rrr", "rr-r", "rrrwi", "rr-rwi", "rrrw", "rr-rw"} ->
+            LET neg == flat[3][1] = "-"  k == IF neg THEN 4 ELSE 3
+                sh == IF Len(flat) = k THEN <<"", 0>>
+                      ELSE IF Len(flat) = k + 1 THEN <<Txt(flat, k + 1), 0>>              \* rrx
+                      ELSE ShiftOf(Txt(flat, k + 1), Num(flat, k + 2)) IN
+            IF Len(flat) = k + 1 /\ Txt(flat, k + 1) # "rrx" THEN NoAsm
+            ELSE Dp([I0 EXCEPT !.enc = "ldst_reg", !.rd = R1, !.rn = Num(flat, 2), !.rm = Num(flat, k), !.st = sh[1], !.sa = sh[2],
+                               !.sub = neg, !.am = am])
+      [] mn \in {"ldrh", "strh", "ldrsb", "ldrsh"} /\ Addr /\ fp \in {"rri", "rr-i"} ->
+            Dp([I0 EXCEPT !.enc = "extra_imm", !.rd = R1, !.rn = Num(flat, 2), !.am = am,
+                          !.imm = IF fp = "rri" THEN Num(flat, 3) ELSE -Num(flat, 4), !.sub = (fp = "rr-i" /\ Num(flat, 4) = 0)])
+      [] mn \in {"ldrh", "strh", "ldrsb", "ldrsh"} /\ Addr /\ fp \in {"rrr", "rr-r"} ->
+            Dp([I0 EXCEPT !.enc = "extra_reg", !.rd = R1, !.rn = Num(flat, 2), !.rm = Num(flat, Len(flat)), !.sub = (fp = "rr-r"), !.am = am])
+      [] mn \in BlockNames /\ n >= 4 /\ ops[1][1] = "r" /\ ops[n][1] = "}"
+              /\ ((ops[2][1] = "{" /\ AllKind(ops, 3, n - 1, "r")) \/ (n >= 5 /\ ops[2][1] = "!" /\ ops[3][1] = "{" /\ AllKind(ops, 4, n - 1, "r"))) ->
+            LET wb == ops[2][1] = "!"  lst == {ops[k][2] : k \in (IF wb THEN 4 ELSE 3)..(n - 1)}
+                md == BlockModeOf(mn) IN
+            IF wb /\ R1 = SP /\ md[2] = "db" /\ md[1] = "stm" THEN [Dp([I0 EXCEPT !.enc = "block", !.rn = SP, !.list = lst]) EXCEPT !.mn = "push"]
+            ELSE IF wb /\ R1 = SP /\ md[2] = "ia" /\ md[1] = "ldm" THEN [Dp([I0 EXCEPT !.enc = "block", !.rn = SP, !.list = lst]) EXCEPT !.mn = "pop"]
+            ELSE [Dp([I0 EXCEPT !.enc = "block", !.rn = R1, !.list = lst, !.am = md[2] \o (IF wb THEN "!" ELSE "")]) EXCEPT !.mn = md[1]]
       [] mn \in {"ldr", "ldrb"} /\ p = "rl" ->
             Dp([I0 EXCEPT !.enc = "ldst_imm", !.rd = R1, !.rn = PC, !.imm = disp, !.am = "off"])
       [] mn \in {"ldrh", "ldrsb", "ldrsh"} /\ p = "rl" ->
